@@ -60,6 +60,8 @@ def rt_case(pkts, mn, mx, dev, stream, tags, pre_ops=()):
         kind = "encodep"
     elif _variant[0] % 7 == 0 and len(pkts) == 1:
         kind = "encode1"
+    elif _variant[0] % 3 == 0:
+        kind = "encodell"      # answered by the low-level model on the driver side
     ops.append(("enc e %s %d %d %s" % (kind, mn, mx, ids)).rstrip())
     ops.append("dec d feedlast e")
     ops.append("dec d pending")
